@@ -485,6 +485,7 @@ def units(tier):
     gmp_element_units(U)
     gmp_cohomology_units(U)
     gmp_inverse_units(U)
+    small_element_inverse_units(U)
     return U
 
 
@@ -1278,6 +1279,44 @@ __CPROVER_assigns(g_pinv_e, g_pinv_q, g_pinv_calls)
                   inputs=["in_e", P], replay=mk_replay_native("mf_ops"), runs=[Run(backend="sat", timeout=300)],
                   harness=H(f"  long in_e = nondet_long(); {P} = nondet_long(); g_pinv_calls = 0;", "get_inverse(in_e);"),
                   desc="Multi_field_operators::get_inverse (GMP): the value of the partial inverse with respect to the product of ALL characteristics"))
+
+def small_element_inverse_units(U):
+    """get_partial_inverse of the two small-characteristic ELEMENT classes (the operator class is checked end to end per
+    prime range elsewhere): which gcd is taken, which sub-product is returned, which identity and which inverse are
+    combined.  std::gcd, integer division, _get_inverse, get_partial_multiplicative_identity and the element's
+    operator*= are ghost / uninterpreted (their own units or the native sweep cover them)."""
+    for key, hdr, cls in (("mfs_sh", "Multi_field_small_shared.h", "Shared_multi_field_element_with_small_characteristics"),
+                          ("mfs_el", "Multi_field_small.h", "Multi_field_element_with_small_characteristics")):
+        path = F + hdr
+        G = ("typedef unsigned int Element; typedef unsigned int Characteristic;\nElement element_; Characteristic multiplicativeID_; Characteristic productOfAllCharacteristics_;\n"
+             "typedef struct { Element first; Characteristic second; } vp_pair;\n"
+             "unsigned __CPROVER_uninterpreted_std_gcd(unsigned a, unsigned b); unsigned __CPROVER_uninterpreted_udiv(unsigned a, unsigned b);\n"
+             "static unsigned vp_std_gcd(unsigned a, unsigned b) { unsigned r = __CPROVER_uninterpreted_std_gcd(a, b); __CPROVER_assume(b == 0 || (r >= 1 && r <= b)); return r; }   /* std::gcd(a, b) divides b */\n"
+             "static unsigned vp_udiv(unsigned a, unsigned b) { __CPROVER_assert(b != 0, \"division by a non-zero gcd\"); return __CPROVER_uninterpreted_udiv(a, b); }\n"
+             "Element g_inv; Element g_inv_e; Characteristic g_inv_m; unsigned g_inv_calls; Element g_pmi; Characteristic g_pmi_arg; unsigned g_pmi_calls; Element g_mul; Element g_mul_a, g_mul_b; unsigned g_mul_calls;\n"
+             "static Element inv_stub(Element e, Characteristic m) { g_inv_calls++; g_inv_e = e; g_inv_m = m; return g_inv; }\n"
+             "static Element pmi_stub(Characteristic q) { g_pmi_calls++; g_pmi_arg = q; return g_pmi; }\n"
+             "static Element el_mul_stub(Element a, Element b) { g_mul_calls++; g_mul_a = a; g_mul_b = b; return g_mul; }\n"
+             "unsigned nondet_uint(void);\n")
+        GCD = "__CPROVER_uninterpreted_std_gcd(element_, productOfCharacteristics)"
+        QT = f"__CPROVER_uninterpreted_udiv(productOfCharacteristics, {GCD})"
+        con = f"""
+__CPROVER_requires(productOfCharacteristics >= 1 && g_inv_calls == 0 && g_pmi_calls == 0 && g_mul_calls == 0)
+__CPROVER_ensures({GCD} != productOfCharacteristics || (__CPROVER_return_value.first == 0 && __CPROVER_return_value.second == multiplicativeID_ && g_inv_calls == 0 && g_pmi_calls == 0 && g_mul_calls == 0))
+__CPROVER_ensures({GCD} == productOfCharacteristics || (__CPROVER_return_value.second == {QT} && g_inv_calls == 1 && g_inv_e == element_ && g_inv_m == {QT} && g_pmi_calls == 1 && g_pmi_arg == {QT}))
+__CPROVER_ensures({GCD} == productOfCharacteristics || (g_mul_calls == 1 && g_mul_a == g_pmi && g_mul_b == g_inv && __CPROVER_return_value.first == g_mul))
+__CPROVER_assigns(g_inv_calls, g_inv_e, g_inv_m, g_pmi_calls, g_pmi_arg, g_mul_calls, g_mul_a, g_mul_b)
+"""
+        fn = Fn(path, rf"std::pair<{cls},Characteristic> get_partial_inverse\(\s*Characteristic productOfCharacteristics\) const", "get_partial_inverse", con,
+                sig_subs=[(rf"std::pair<{cls},Characteristic>", "vp_pair")],
+                subs=[(r"std::gcd\(", "vp_std_gcd("), (r"\b(\w+) / (\w+)\b", r"vp_udiv(\1, \2)"),
+                      (rf"return \{{{cls}\(\), (\w+)\}};", r"return (vp_pair){0, \1};"),
+                      (r"_get_inverse\(", "inv_stub("), (r"auto (\w+) = get_partial_multiplicative_identity\(([^;]*)\);", r"Element \1 = pmi_stub(\2);"),
+                      (r"(\w+) \*= (\w+);", r"\1 = el_mul_stub(\1, \2);"), (r"return \{(\w+), (\w+)\};", r"return (vp_pair){\1, \2};")],
+                canary=(r"inv_stub\(element_, QT\)", "inv_stub(element_, productOfCharacteristics)"))
+        U.append(Unit(f"{key}.get_partial_inverse", "C10", [fn], enforce="get_partial_inverse", globals_=G, inputs=["in_q", "element_"], replay=mk_replay_native(key),
+                      harness=H("  unsigned in_q = nondet_uint(); element_ = nondet_uint(); g_inv_calls = 0; g_pmi_calls = 0; g_mul_calls = 0;", "get_partial_inverse(in_q);"),
+                      desc=f"{cls}::get_partial_inverse(Q): with g = gcd(element, Q) - the gcd with the ARGUMENT, not with the whole product: (0, 1) when g == Q; otherwise T = Q / g is returned, and the value is the partial identity of T times the inverse of the element modulo T"))
 
 TRUSTED = [
     "vp/prelude.h: spec functions RES_U/ADDMOD/SUBMOD/MATHMOD64 and the R11 stand-ins (VP_SWAP_U, vp_gcd_u)",
